@@ -317,10 +317,37 @@ def table(ctx, facts, roles, truthy, cfg):
         rows = {}        # (predicate, holds) -> set of results ; ("always",) -> results
         unread = []
         accessors = set()
+        def helper_accessors(k0):
+            """Number accessors used by the private helpers a path calls (`is_zero(n)`): they decide for the table too."""
+            out_, seen_, todo_ = set(), set(), [k0]
+            while todo_:
+                k_ = todo_.pop()
+                if k_ in seen_ or k_ == truthy.key:
+                    continue
+                seen_.add(k_)
+                hb = facts.body(k_)
+                if hb is None:
+                    continue
+                for _, t_ in hb.calls():
+                    c_ = callee_of(t_)
+                    if c_ is None:
+                        continue
+                    if re.search(r"Number::(as_i64|as_u64|is_i64|is_u64|is_f64|as_f64|as_i128|as_u128)$", c_["path"]):
+                        out_.add(c_["path"].rsplit("::", 1)[1])
+                    if re.search(r"f64::to_bits$|::to_bits$|::total_cmp$|::is_sign_negative$|::is_sign_positive$|::signum$", c_["path"]):
+                        out_.add(c_["path"].rsplit("::", 1)[1])     # tells -0.0 from 0.0
+                    if c_.get("local"):
+                        todo_.append(c_["key"])
+                todo_.extend(x.key for x in facts.bodies.values() if x.kind == "closure" and x.key.startswith(k_ + "::{closure#"))
+            return out_
         for conds, val, pth in cases:
             for ev in pth.events:
                 if ev[1] and re.search(r"Number::(as_i64|as_u64|is_i64|is_u64|is_f64|as_f64)$", ev[1]["path"]):
                     accessors.add(ev[1]["path"].rsplit("::", 1)[1])
+                if ev[1] and re.search(r"::to_bits$|::total_cmp$|::is_sign_negative$|::is_sign_positive$|::signum$", ev[1]["path"]):
+                    accessors.add(ev[1]["path"].rsplit("::", 1)[1])
+                if ev[1] and ev[1].get("local") and v == "Number":
+                    accessors |= helper_accessors(ev[1]["key"])
                 if ev[1] and ("Iterator" in ev[1]["path"] or ev[1]["path"].endswith("::iter") or ev[1]["path"].endswith("::chars")):
                     accessors.add("iterates")
             state = None
